@@ -163,7 +163,23 @@ impl Style {
     }
 }
 
-pub const COMMENT_TEXTS: [&str; 30] = [
+/// String contents that a careless handling of text would treat specially: byte count and character count
+/// differ, what looks like an escape, a comment opener, a label colon, a macro parameter, a line
+/// continuation.  The assembler has no escapes: a string is every byte up to the next `"`.
+pub const HOSTILE_STRINGS: [&str; 28] = [
+    "\u{e9}", "\u{e9}\u{e9}", "\u{b0}C", "\u{20ac}", "\u{65e5}\u{672c}", "\u{1f600}", "a\\x41b", "23\\xDFC", "\\x4", "\\n\\t\\0", "back\\", "c:\\avr\\", "a:b", "semi;colon", "// no", "/* no */",
+    "it's", "tab\there", "x\u{a0}y", "#", ".db 1", "'", ",", "  ", "%d\\",
+    // the last three hold a macro parameter and only make sense outside macro bodies
+    "@0", "x@1y", "\u{e9}@0",
+];
+
+/// one of HOSTILE_STRINGS; `in_macro_body` leaves out those that contain a macro parameter
+pub fn hostile_string(rng: &mut Rng, in_macro_body: bool) -> &'static str {
+    let n = if in_macro_body { HOSTILE_STRINGS.len() - 3 } else { HOSTILE_STRINGS.len() };
+    HOSTILE_STRINGS[rng.usize(n)]
+}
+
+pub const COMMENT_TEXTS: [&str; 33] = [
     "masks are listed in doc/*.txt",
     "built from src/*.asm /* never closed",
     "a closing */ only",
@@ -194,6 +210,9 @@ pub const COMMENT_TEXTS: [&str; 30] = [
     "#define Z",
     ".else .elif 1",
     "100% /path //",
+    "tools live in C:\\avr\\",
+    "note: fallback",
+    "ends with a backslash \\",
 ];
 
 /// a comment text made of operator characters only, longer than any per-line limit on operators
@@ -289,7 +308,20 @@ pub fn opnd_text(o: &Opnd, st: &mut Style) -> String {
             }
             a.clone()
         }
-        Opnd::Idx(ix) => st.kw(ix.text()),
+        Opnd::Idx(ix) => {
+            // blanks between the pointer register and its + or - mean nothing either
+            let t = st.kw(ix.text());
+            if st.unary_blanks {
+                let b = st.sp();
+                if let Some(r) = t.strip_prefix('-') {
+                    return format!("-{}{}", b, r);
+                }
+                if let Some(r) = t.strip_suffix('+') {
+                    return format!("{}{}+", r, b);
+                }
+            }
+            t
+        }
         Opnd::Disp(reg, e) => {
             let r = st.kw(&reg.to_string());
             let (a, b) = if st.unary_blanks { (st.sp(), st.sp()) } else { ("", "") };
@@ -591,6 +623,14 @@ pub fn wrap_in_macros(nodes: &[Node], rng: &mut Rng, max: usize) -> Vec<Node> {
             out.insert(1, def);
         } else {
             out.push(def);
+        }
+    }
+    // the device selection itself may come out of a macro: the part is then only known once macros are expanded
+    if let Some(at) = out.iter().take(3).position(|n| matches!(n, Node::Device(_))) {
+        if made > 0 && rng.chance(1, 2) {
+            let d = out.remove(at);
+            out.insert(at, Node::MacroCall { name: "wrap_pick_part".into(), args: vec![] });
+            out.push(Node::MacroDef { name: "wrap_pick_part".into(), body: vec![d], end_long: false });
         }
     }
     out
